@@ -101,8 +101,28 @@ def run (t : Tab) (alt : Bool) (f : Flow) : String :=
   let p := s!"{if lib.mostlyBin c then 1 else 0} {showBytes (lib.infer (ctOf lib f.resp) c)} {showBytes (lib.infer (ctOf lib f.req) [])} {showBytes (lib.ctUtf8 (ctOf lib f.req))}"
   s!"E {showEntry e} I {i} G {g} P {p}"
 
+/-- the flows of an `rtl` line: groups of ten fields (as in `rt`), their answer tables merged -/
+def parseFlows : List String → Option (List Flow × Tab)
+  | [] => some ([], [])
+  | m :: u :: rv :: rh :: rb :: st :: sv :: sh :: sb :: tab :: rest =>
+    match hexOr m, hexOr u, hexOr rv, parseHdrs rh, hexOr rb, st.toNat?, hexOr sv, parseHdrs sh, hexOr sb, parseFlows rest with
+    | some m, some u, some rv, some rh, some rb, some st, some sv, some sh, some sb, some (fs, t) =>
+      some ({ method := m, purl := u, req := ⟨rv, rh, rb⟩, status := st, resp := ⟨sv, sh, sb⟩ } :: fs, parseTab tab ++ t)
+    | _, _, _, _, _, _, _, _, _, _ => none
+  | _ => none
+
+/-- `roundtrip` on the whole list: every imported flow in order, or `fail` (one failing entry loses the file) -/
+def runList (t : Tab) (alt : Bool) (fs : List Flow) : String :=
+  match roundtrip (mkLib t alt) idJson fs with
+  | some fs' => s!"L {fs'.length} " ++ " / ".intercalate (fs'.map showFlow)
+  | none => "L fail"
+
 def step (line : String) : String :=
   match fields line with
+  | "rtl" :: rest =>
+    match parseFlows rest with
+    | some (fs, t) => if runList t false fs = runList t true fs then runList t false fs else "lib-miss"
+    | none => "bad-op"
   | ["rt", m, u, rv, rh, rb, st, sv, sh, sb, tab] =>
     match hexOr m, hexOr u, hexOr rv, parseHdrs rh, hexOr rb, st.toNat?, hexOr sv, parseHdrs sh, hexOr sb with
     | some m, some u, some rv, some rh, some rb, some st, some sv, some sh, some sb =>
